@@ -14,7 +14,8 @@
 //!              that are written are applied on top of it; without either the classic keys are all applied with the harness
 //!              defaults (fr=1/2 size=10 wait=1000 permitted=1), as before.
 //!   chain=<i1,i2,…>  the builder chain itself, left to right (replaces fr/size/wait/permitted/wtype/wdur/min/slow/sr/cls/listen):
-//!              fr:a/b size:n wait:n|max perm:n wtype:time|count wdur:n min:n slow:n sr:a/b name:x
+//!              fr:a/b size:n wait:n|max perm:n wtype:time|count wdur:n|max min:n slow:n sr:a/b name:x
+//!              (`wdur:max` / header `wdur=max`: `sliding_window_duration(Duration::MAX)`, a time window nothing ever leaves)
 //!              lis:tr|slow|permitted|rejected|success|failure   (on_state_transition — logs `transition a b` —, on_slow_call —
 //!              meta line `#slow <ticks>` —, on_call_permitted, … : listeners that do nothing)
 //!              lis:trs  an `on_state_transition` listener that ALSO reads `state_sync()` of the breaker it is called for, inside
@@ -43,6 +44,18 @@
 //!              that applies `force_open` / `force_closed`. The task is spawned on a runtime of its own that only runs when
 //!              told to, so that WHEN the scheduler gets to it is an operation:
 //!   yield      the tasks spawned so far by the triggers of that service run (in spawn order)
+//!   contend ev=<rejected|permitted|success|failure|transition> st=<open|closed>
+//!              a bounded REAL-THREAD scenario on a breaker of its own, built from the case's configuration (the same builder
+//!              chain; classifier and logging listeners left out) over a counting inner service, with the case's fallback
+//!              setting: the breaker is put in state `st` (force_open), then OS thread A performs one operation on a clone —
+//!              a call (ev = rejected / permitted / success / failure) or an override (ev = transition: force_open of a closed,
+//!              force_closed of an open breaker) — whose `on_<ev>` listener PARKS inside the circuit's critical section (event
+//!              listeners run under the breaker's mutex). While A is parked there, this thread makes a request B on another
+//!              clone and polls it ONCE; then A is released and joined and B is driven to completion. Deterministic (channels,
+//!              no clock, no sleep). Nothing of it touches the case's own breaker; the outcome is the meta line
+//!              `#contend ev= st= fb= parked= open_during= open_after= first= inner_during= b= b_inner= a=`
+//!              (open_*: `is_open()` while A is parked / after both have finished; first: B's first poll; inner_during / b_inner:
+//!              how often B's request had reached the inner service by then / in the end).
 use crate::world::*;
 use futures::future::BoxFuture;
 use futures::FutureExt;
@@ -52,7 +65,8 @@ use std::convert::Infallible;
 use std::future::Future;
 use std::pin::Pin;
 use std::rc::Rc;
-use std::sync::{Arc, Mutex};
+use std::sync::atomic::{AtomicBool, Ordering as AtOrd};
+use std::sync::{mpsc, Arc, Mutex};
 use std::task::{Context, Poll, Waker};
 use std::time::Duration;
 use tower::{Layer, Service};
@@ -100,6 +114,8 @@ impl Future for InSvc {
 pub struct Adapter {
     svcs: Services,
     make: Rc<dyn Fn(u64) -> One>,
+    /// the case header (`manual contend` builds a breaker of its own from it)
+    hdr: Kv,
 }
 
 /// one service built from the layer
@@ -460,6 +476,180 @@ where
     One { call, ctl, gate, tasks }
 }
 
+// ------------------------------------------------------------------ a request while another THREAD is inside the circuit
+
+/// the listener that parks: the first invocation after `armed` was set tells the main thread (1) and waits to be released
+struct Park {
+    armed: AtomicBool,
+    note: Mutex<mpsc::Sender<u8>>,
+    release: Mutex<mpsc::Receiver<()>>,
+}
+impl Park {
+    fn park(&self) {
+        if self.armed.swap(false, AtOrd::SeqCst) {
+            let _ = self.note.lock().unwrap_or_else(|e| e.into_inner()).send(1);
+            let _ = self.release.lock().unwrap_or_else(|e| e.into_inner()).recv();
+        }
+    }
+}
+
+/// inner service of the scenario: answers at once, remembers which requests reached it; request 1 fails if told to
+#[derive(Clone)]
+struct Counting(Arc<Mutex<Vec<u32>>>, bool);
+impl Service<u32> for Counting {
+    type Response = u32;
+    type Error = IErr;
+    type Future = std::future::Ready<Result<u32, IErr>>;
+    fn poll_ready(&mut self, _cx: &mut Context<'_>) -> Poll<Result<(), IErr>> {
+        Poll::Ready(Ok(()))
+    }
+    fn call(&mut self, req: u32) -> Self::Future {
+        self.0.lock().unwrap_or_else(|e| e.into_inner()).push(req);
+        std::future::ready(if req == 1 && self.1 { Err(IErr { kind: 1, v: 0 }) } else { Ok(req) })
+    }
+}
+
+fn rend(r: Result<u32, CircuitBreakerError<IErr>>) -> String {
+    match r {
+        Ok(v) if v >= 900_000 => "ok:fallback".into(),
+        Ok(_) => "ok".into(),
+        Err(CircuitBreakerError::OpenCircuit) => "err:open".into(),
+        Err(CircuitBreakerError::Inner(e)) => format!("err:inner{}", e.kind),
+    }
+}
+
+/// `manual contend …` (see the module header)
+fn contend(hdr: &Kv, kv: &Kv) {
+    let _busy = Busy::new();
+    let ev = kv.str("ev", "rejected");
+    let open = kv.str("st", "open") == "open";
+    let fb = hdr.u64("fallback", 0) == 1;
+    let (note_tx, note_rx) = mpsc::channel::<u8>();
+    let (release_tx, release_rx) = mpsc::channel::<()>();
+    let park = Arc::new(Park { armed: AtomicBool::new(false), note: Mutex::new(note_tx.clone()), release: Mutex::new(release_rx) });
+    let mut b = start(hdr);
+    for it in chain_items(hdr) {
+        if !it.starts_with("cls") && !it.starts_with("lis:") {
+            b = plain_setter(b, &it);
+        }
+    }
+    let p = park.clone();
+    let b = match ev.as_str() {
+        "rejected" => b.on_call_rejected(move || p.park()),
+        "permitted" => b.on_call_permitted(move |_| p.park()),
+        "success" => b.on_success(move |_| p.park()),
+        "failure" => b.on_failure(move |_| p.park()),
+        _ => b.on_state_transition(move |_, _| p.park()),
+    };
+    let seen = Arc::new(Mutex::new(Vec::new()));
+    let plain = b.build().layer_fn(Counting(seen.clone(), ev == "failure"));
+    let ctl = plain.clone();
+    let line = if fb {
+        let svc = plain.with_fallback(|req: u32| -> BoxFuture<'static, Result<u32, IErr>> { Box::pin(async move { Ok(900_000 + req) }) });
+        contend_on(svc, ctl, &park, note_tx, note_rx, release_tx, &seen, &ev, open)
+    } else {
+        contend_on(plain, ctl, &park, note_tx, note_rx, release_tx, &seen, &ev, open)
+    };
+    log_raw(format!("#contend ev={} st={} fb={} {}", ev, if open { "open" } else { "closed" }, fb as u8, line));
+}
+
+#[allow(clippy::too_many_arguments)]
+fn contend_on<S>(
+    svc: S,
+    ctl: CircuitBreaker<Counting, DefaultClassifier>,
+    park: &Arc<Park>,
+    note_tx: mpsc::Sender<u8>,
+    note_rx: mpsc::Receiver<u8>,
+    release_tx: mpsc::Sender<()>,
+    seen: &Arc<Mutex<Vec<u32>>>,
+    ev: &str,
+    open: bool,
+) -> String
+where
+    S: Service<u32, Response = u32, Error = CircuitBreakerError<IErr>> + Clone + Send + 'static,
+    S::Future: Send + 'static,
+{
+    let count_b = || seen.lock().unwrap_or_else(|e| e.into_inner()).iter().filter(|x| **x == 2).count();
+    if open {
+        let _ = ctl.force_open().now_or_never();
+    }
+    park.armed.store(true, AtOrd::SeqCst);
+    let waker = futures::task::noop_waker();
+    let mut cx = Context::from_waker(&waker);
+    let (mut parked, mut open_during, mut first, mut during) = (false, false, String::from("-"), 0usize);
+    let mut b = String::from("-");
+    let mut fut_b: Option<Pin<Box<S::Future>>> = None;
+    let a = std::thread::scope(|s| {
+        let mut a_svc = svc.clone();
+        let ctl_a = ctl.clone();
+        let transition = ev == "transition";
+        let h = s.spawn(move || {
+            let r = if transition {
+                futures::executor::block_on(async {
+                    if open {
+                        ctl_a.force_closed().await
+                    } else {
+                        ctl_a.force_open().await
+                    }
+                });
+                "override".to_string()
+            } else {
+                rend(futures::executor::block_on(async {
+                    futures::future::poll_fn(|cx| a_svc.poll_ready(cx)).await?;
+                    a_svc.call(1).await
+                }))
+            };
+            let _ = note_tx.send(2);
+            r
+        });
+        parked = note_rx.recv() == Ok(1);
+        if parked {
+            // thread A is inside the circuit's critical section, in its listener
+            open_during = ctl.is_open();
+            let mut b_svc = svc.clone();
+            match b_svc.poll_ready(&mut cx) {
+                Poll::Ready(Ok(())) => {
+                    let mut f = Box::pin(b_svc.call(2));
+                    match f.as_mut().poll(&mut cx) {
+                        Poll::Ready(r) => first = rend(r),
+                        Poll::Pending => {
+                            first = "pending".into();
+                            fut_b = Some(f);
+                        }
+                    }
+                }
+                _ => first = "notready".into(),
+            }
+            during = count_b();
+            let _ = release_tx.send(());
+            // the breaker's mutex is fair: B, queued behind A's critical section, is handed the lock next, and A needs it again
+            // to record its outcome — so B is driven here, on this thread, while A finishes on its own
+            let mut rounds = 0u32;
+            while !(h.is_finished() && fut_b.is_none()) && rounds < 5_000_000 {
+                if let Some(f) = fut_b.as_mut() {
+                    if let Poll::Ready(r) = f.as_mut().poll(&mut cx) {
+                        b = rend(r);
+                        fut_b = None;
+                    }
+                }
+                std::thread::yield_now();
+                rounds += 1;
+            }
+        }
+        h.join().unwrap_or_else(|_| "panic".to_string())
+    });
+    // nobody parks any more
+    park.armed.store(false, AtOrd::SeqCst);
+    let open_after = ctl.is_open();
+    if b == "-" {
+        b = first.clone();
+    }
+    format!(
+        "parked={} open_during={} open_after={} first={} inner_during={} b={} b_inner={} a={}",
+        parked as u8, open_during as u8, open_after as u8, first, during, b, count_b(), a
+    )
+}
+
 // ------------------------------------------------------------------ the builder chain
 
 type Bld<C> = CircuitBreakerConfigBuilder<C>;
@@ -501,7 +691,8 @@ fn plain_setter<C>(b: Bld<C>, item: &str) -> Bld<C> {
         "wait" => b.wait_duration_in_open(if v == "max" { Duration::MAX } else { ticks(num(v)) }),
         "perm" => b.permitted_calls_in_half_open(num(v) as usize),
         "wtype" => b.sliding_window_type(if v == "time" { SlidingWindowType::TimeBased } else { SlidingWindowType::CountBased }),
-        "wdur" => b.sliding_window_duration(ticks(num(v))),
+        // `wdur:max`: "never forget a call" — a window that cannot be subtracted from the monotonic clock
+        "wdur" => b.sliding_window_duration(if v == "max" { Duration::MAX } else { ticks(num(v)) }),
         "min" => b.minimum_number_of_calls(num(v) as usize),
         "slow" => b.slow_call_duration_threshold(ticks(num(v))),
         "sr" => b.slow_call_rate_threshold(frac_of(v, (1, 1))),
@@ -540,7 +731,7 @@ fn classic_chain(kv: &Kv, all: bool) -> Vec<String> {
     }
     if kv.str("wtype", "count") == "time" {
         v.push("wtype:time".into());
-        v.push(format!("wdur:{}", kv.u64("wdur", 1000)));
+        v.push(format!("wdur:{}", kv.str("wdur", "1000")));
     }
     if let Some(m) = kv.opt_u64("min") {
         v.push(format!("min:{}", m));
@@ -615,7 +806,14 @@ where
     });
     let svcs: Services = Rc::new(RefCell::new(BTreeMap::new()));
     svcs.borrow_mut().insert(0, make(0));
-    Adapter { svcs, make }
+    Adapter { svcs, make, hdr: kv.clone() }
+}
+
+fn chain_items(kv: &Kv) -> Vec<String> {
+    match kv.get("chain") {
+        Some(ch) => ch.split(',').filter(|x| !x.is_empty() && *x != "-").map(|x| x.to_string()).collect(),
+        None => classic_chain(kv, kv.get("preset").is_none()),
+    }
 }
 
 enum Fam {
@@ -628,10 +826,7 @@ impl Adapter {
         FB.lock().unwrap_or_else(|e| e.into_inner()).clear();
         PEEK.lock().unwrap_or_else(|e| e.into_inner()).clear();
         enter_svc(0);
-        let items: Vec<String> = match kv.get("chain") {
-            Some(ch) => ch.split(',').filter(|x| !x.is_empty() && *x != "-").map(|x| x.to_string()).collect(),
-            None => classic_chain(kv, kv.get("preset").is_none()),
-        };
+        let items = chain_items(kv);
         if let Some(ix) = items.iter().position(|x| x.starts_with("clsr:")) {
             // errors encoded in the response: `classify_response` fixes the service's error type to `Infallible`
             let mut b = start(kv);
@@ -725,6 +920,10 @@ impl Mw for Adapter {
         log(format!("probe {}{}", s, suffix(kv)));
     }
     fn manual(&mut self, what: &str, kv: &Kv) {
+        if what == "contend" {
+            contend(&self.hdr, kv);
+            return;
+        }
         log(format!("manual {}{}", what, suffix(kv)));
         let blocked = self.with(kv.u64("svc", 0), |o| match what {
             "inner_up" => {
